@@ -224,38 +224,49 @@ def rule_sgn0(fx, rep):
         rep.fn(p)
         over = [i['self_ty'] for i in fx.impls_of('signum::Signum0') for it in i['items'] if it['name'] == 'negate_if']
         rep.check(not over, 'WIRE', 'negate_if:not-overridden', 'no impl overrides the default', 'overridden by %s' % over)
-        f = fx.fn(p)
-        prom_variant = None
-        for pb in f.get('promoted', []):
-            for blk in pb['blocks']:
-                for s in blk['stmts']:
-                    if s['k'] == 'assign' and s['rv']['k'] == 'agg' and s['rv']['kind'].get('adt') == 'signum::Sgn0Result':
-                        prom_variant = s['rv']['kind']['variant_name']
-
-        def tr(I, fr, t, c, pth):
-            if c.get('trait') == 'std::cmp::PartialEq' and c.get('name') in ('eq', 'ne'):
-                fr.storev(t['dest'], ('bool', (c['name'], 'sgn-vs-const')))
-                return True
-            if c.get('trait') == 'ff::Field' and c.get('name') == 'negate':
-                fr.store_through(t['args'][0], 'negated')
-                return True
-            return False
-        I = exp.Interp(fx, 'none', extra_transfer=tr)
-        res = I.run(p, [('byref', 'orig'), TOP])
-        ok = len(res) == 2 and prom_variant in ('Negative', 'NonNegative')
-        why = 'paths %d, compared constant %r' % (len(res), prom_variant)
-        for pth, ret, outs in res:
-            labs = [lab_name(l) for l in pth.labels]
-            if len(labs) != 1:
-                ok = False
-                continue
-            nm, tk, x = labs[0]
-            equal = tk if nm == 'eq' else not tk
-            is_negative = equal if prom_variant == 'Negative' else (not equal)
-            want = 'negated' if is_negative else 'orig'
-            if outs.get(1) != want:
-                ok, why = False, 'sgn==%s -> element is %r' % ('Negative' if is_negative else 'NonNegative', outs.get(1))
-        rep.check(ok, 'WIRE', 'negate_if', 'negates iff the argument is Negative', why, fx.fn(p)['span'], construct=p)
+        # both values of the sign argument: the element is negated exactly for Negative
+        SG = 'signum::Sgn0Result'
+        bad = []
+        for variant in ('NonNegative', 'Negative'):
+            def tr(I, fr, t, c, pth):
+                if c.get('trait') == 'ff::Field' and c.get('name') == 'negate':
+                    fr.store_through(t['args'][0], ('negated', fr.deref_operand(t['args'][0])))
+                    return True
+                return False
+            I = exp.Interp(fx, 'none', extra_transfer=tr, inline=lambda q: (fx.fn(q) or {}).get('impl_self_ty') == SG)
+            I.fork_inlined = True
+            try:
+                res = I.run(p, [('byref', 'orig'), Agg([], (SG, variant))])
+            except (exp.NotDerivable, exp.Budget) as e:
+                bad.append('not derivable: %s' % e)
+                break
+            outs_ = [r[2].get(1) for r in res if not (isinstance(r[1], tuple) and r[1] and r[1][0] == 'diverges')]
+            want = ('negated', 'orig') if variant == 'Negative' else 'orig'
+            if outs_ != [want]:
+                bad.append('for %s the element becomes %r' % (variant, outs_))
+        rep.check(not bad, 'WIRE', 'negate_if', 'negates iff the argument is Negative', '; '.join(bad), fx.fn(p)['span'], construct=p)
+    # the sign xor: Negative exactly when the operands differ
+    px = fx.impl_method('std::ops::BitXor', 'signum::Sgn0Result', 'bitxor')
+    if px and fx.body(px) is not None:
+        rep.fn(px)
+        SG = 'signum::Sgn0Result'
+        bad = []
+        for a_ in ('NonNegative', 'Negative'):
+            for b_ in ('NonNegative', 'Negative'):
+                I = exp.Interp(fx, 'none', inline=lambda q: (fx.fn(q) or {}).get('impl_self_ty') == SG and q != px)
+                I.fork_inlined = True
+                try:
+                    res = I.run(px, [Agg([], (SG, a_)), Agg([], (SG, b_))])
+                except (exp.NotDerivable, exp.Budget) as e:
+                    bad.append('not derivable: %s' % e)
+                    continue
+                got = [r[1].kind[1] if isinstance(r[1], Agg) and r[1].kind else repr(r[1]) for r in res]
+                want = 'Negative' if a_ != b_ else 'NonNegative'
+                if got != [want]:
+                    bad.append('%s ^ %s = %s, expected %s' % (a_, b_, got, want))
+        rep.check(not bad, 'WIRE', 'Sgn0Result::bitxor', 'Negative exactly when the two signs differ (truth table)', '; '.join(bad), fx.fn(px)['span'], construct=px)
+    else:
+        rep.fail('WIRE', 'Sgn0Result::bitxor', 'BitXor for Sgn0Result not found')
 
 
 class KBits64(KBits):
